@@ -99,10 +99,15 @@ func execHistory(c *core.Ctx, sb *sandbox, h hcase, prop string) ([]core.Violati
 		}
 		pre := st.clone()
 		sb.readBack(shape, &st)
-		// once the spokfile itself has been edited only "never skipped wrongly" is judged: a changed
-		// dependency declaration may name the same set of files in a different way (a file listed
-		// twice), and whether that still counts as "unchanged" is not stated (cf. duplicates in C04)
-		vd := judgeRun(shape, pre, o, &st, !spokfileEdited)
+		// once the spokfile itself has been edited, C02 is demanded only of tasks whose own declaration
+		// is the one of their last success: a changed dependency declaration may name the same set of
+		// files in a different way (a file listed twice), and whether that still counts as "unchanged"
+		// is not stated (cf. duplicates in C04). "Never skipped wrongly" is judged of every task.
+		mode := c02All
+		if spokfileEdited {
+			mode = c02SameDecl
+		}
+		vd := judgeRun(shape, pre, o, &st, mode)
 		stats.Runs++
 		stats.Skips += vd.Skips
 		stats.Reruns += vd.Reruns
@@ -179,6 +184,8 @@ func histWorker(c *core.Ctx) {
 		histRandom(c, sb, res, wl)
 	case "inplace":
 		histInPlace(c, sb, res, wl)
+	case "alts":
+		histAlts(c, sb, res, wl)
 	}
 	core.WriteResult(res)
 }
@@ -256,7 +263,7 @@ func histBFS(c *core.Ctx, sb *sandbox, res *core.ShardResult, wl *core.WLog) {
 			}
 			n := st.clone()
 			sb.readBack(shape, &n)
-			vd := judgeRun(shape, st, o, &n, true)
+			vd := judgeRun(shape, st, o, &n, c02All)
 			trans++
 			res.Evaluations++
 			for _, d := range o.Decisions {
@@ -351,6 +358,10 @@ func randShape(r *core.Rng) hshape {
 				t.Deps = append(t.Deps, names[j])
 			}
 		}
+		if r.Chance(30) {
+			// declared outputs, which other tasks may well name as inputs
+			t.Outs = append(t.Outs, core.Pick(r, append(append([]string{}, randFiles[:4]...), randGlobs[:4]...)))
+		}
 		s.Tasks = append(s.Tasks, t)
 	}
 	s.Files = append([]string{}, randFiles...)
@@ -391,6 +402,10 @@ func randHistory(r *core.Rng, length int) hcase {
 			t.Globs = append(t.Globs, core.Pick(r, randGlobs))
 		}
 		h.Alts = []hshape{alt}
+		// a version in which only the command text of one task differs (declarations and inputs are the same)
+		cmdv := hshape{Name: s.Name, Files: s.Files, Links: s.Links, Tasks: append([]htask{}, s.Tasks...)}
+		cmdv.Tasks[r.Intn(len(cmdv.Tasks))].CmdTag = "v2"
+		h.Alts = append(h.Alts, cmdv)
 		// a third version in which the last task is gone (and comes back when the original is restored)
 		if len(s.Tasks) > 1 {
 			gone := hshape{Name: s.Name, Files: s.Files, Links: s.Links, Tasks: append([]htask{}, s.Tasks[:len(s.Tasks)-1]...)}
@@ -400,7 +415,7 @@ func randHistory(r *core.Rng, length int) hcase {
 	for len(h.Ops) < length {
 		switch k := r.Intn(100); {
 		case len(h.Alts) > 0 && k < 8:
-			h.Ops = append(h.Ops, hop{Kind: "spokfile", Value: core.Pick(r, []string{"0", "0", "-1", "-1", "1"})})
+			h.Ops = append(h.Ops, hop{Kind: "spokfile", Value: core.Pick(r, []string{"0", "1", "1", "-1", "-1", "-1", "2"})})
 		case k < 50:
 			var req []string
 			for _, t := range s.Tasks {
@@ -510,6 +525,130 @@ func histRandom(c *core.Ctx, sb *sandbox, res *core.ShardResult, wl *core.WLog) 
 	}
 }
 
+// histAlts executes every short history in which the spokfile itself is edited and edited back:
+// for a shape and one alternative version of it (a task's command text differs / the last task is
+// gone / a task declares one dependency more), every sequence over {switch to the alternative,
+// switch back, write a.txt=v2, write a.txt=v1, run the first task, run all tasks} that ends in a
+// full run. C01 and C14 are judged of every task, C02 of the tasks whose declaration is the one of
+// their last success.
+func histAlts(c *core.Ctx, sb *sandbox, res *core.ShardResult, wl *core.WLog) {
+	type combo struct {
+		shape hshape
+		alt   hshape
+		kind  string
+	}
+	var combos []combo
+	for _, base := range []hshape{histShapes[0], histShapes[2]} {
+		cp := func() hshape {
+			n := hshape{Name: base.Name, Files: base.Files, Links: base.Links, Stamp: base.Stamp}
+			for _, t := range base.Tasks {
+				nt := t
+				nt.Lits = append([]string{}, t.Lits...)
+				nt.Globs = append([]string{}, t.Globs...)
+				n.Tasks = append(n.Tasks, nt)
+			}
+			return n
+		}
+		a := cp()
+		a.Tasks[0].CmdTag = "v2"
+		combos = append(combos, combo{base, a, "command-text"})
+		g := cp()
+		g.Tasks = g.Tasks[:len(g.Tasks)-1]
+		combos = append(combos, combo{base, g, "task-gone"})
+		d := cp()
+		d.Tasks[0].Lits = append(d.Tasks[0].Lits, "b.txt")
+		combos = append(combos, combo{base, d, "one-dependency-more"})
+	}
+	maxLen := c.Q(6, 7)
+	wl.Block(0)
+	count := 0
+	for ci, cb := range combos {
+		var all []string
+		for _, t := range cb.shape.Tasks {
+			all = append(all, t.Name)
+		}
+		alphabet := []hop{
+			{Kind: "run", Tasks: all},
+			{Kind: "run", Tasks: all[:1]},
+			{Kind: "spokfile", Value: "0"},
+			{Kind: "spokfile", Value: "-1"},
+			{Kind: "write", File: "a.txt", Value: "v2"},
+			{Kind: "write", File: "a.txt", Value: "v1"},
+		}
+		n := len(alphabet)
+		prefix := []hop{{Kind: "write", File: "a.txt", Value: "v1"}, {Kind: "write", File: "b.txt", Value: "v1"}, {Kind: "run", Tasks: all}}
+		for length := 2; length <= maxLen; length++ {
+			total := 1
+			for i := 0; i < length-1; i++ {
+				total *= n
+			}
+			for idx := 0; idx < total; idx++ {
+				ops := make([]hop, length)
+				x := idx
+				for i := length - 2; i >= 0; i-- {
+					ops[i] = alphabet[x%n]
+					x /= n
+				}
+				ops[length-1] = alphabet[0]
+				// prune: no operation twice in a row, switches only where they change something, at least one switch
+				ok, inAlt, switched := true, false, false
+				val := "v1"
+				for i, o := range ops {
+					if i > 0 && o.String() == ops[i-1].String() {
+						ok = false
+					}
+					switch {
+					case o.Kind == "spokfile" && o.Value == "0":
+						ok = ok && !inAlt
+						inAlt, switched = true, true
+					case o.Kind == "spokfile":
+						ok = ok && inAlt
+						inAlt = false
+					case o.Kind == "write":
+						ok = ok && o.Value != val
+						val = o.Value
+					}
+				}
+				if !ok || !switched {
+					continue
+				}
+				count++
+				if count%c.NShards != c.Shard {
+					continue
+				}
+				h := hcase{Shape: cb.shape, Alts: []hshape{cb.alt}, Ops: append(append([]hop{}, prefix...), ops...), Via: "inproc"}
+				if count%256 == 0 {
+					wl.Tick()
+				}
+				if !wl.Begin(0, count, func() any { return h }) {
+					continue
+				}
+				vs, stats := execHistory(c, sb, h, c.Prop)
+				res.Evaluations += int64(stats.Runs)
+				res.Count("spokfile_edit_sequences", 1)
+				res.Count("spokfile_edit_sequences_"+cb.kind, 1)
+				res.Count("skips_observed", int64(stats.Skips))
+				res.Count("executions_observed", int64(stats.Reruns))
+				res.Count("skips_demanded", int64(stats.DemSkips))
+				if stats.Skips > 0 && stats.Reruns > 0 {
+					res.Nontrivial++ // sequences are distinct by construction
+				}
+				seen := map[string]bool{}
+				for _, v := range vs {
+					if seen[v.Clause] || res.Counters["violations_total"] > 20 {
+						continue
+					}
+					seen[v.Clause] = true
+					v.Key = h.key()
+					v.Case = core.JSON(h)
+					res.Violate(v)
+				}
+			}
+		}
+		_ = ci
+	}
+}
+
 // histInPlace executes every operation sequence up to a bounded length over a small alphabet on
 // one shape *in place*: the project directory is created once per sequence and then only edited,
 // so that directory and file modification times, emptied directories and whatever spok keeps in
@@ -590,19 +729,23 @@ func histInPlace(c *core.Ctx, sb *sandbox, res *core.ShardResult, wl *core.WLog)
 // Orchestrator
 
 var histRules = map[string]string{
-	"C01": "states = (content of every project file, bytes of .spok/cache.json or its absence, model of each task's last success); breadth-first search from the empty project over {write 'v1' / (thorough: 'v2') / the empty content to each file, delete it, rm -rf .spok, rm .spok/cache.json, chmod +x, run every non-empty task subset plain/forced, also with the first command of each closure task failing} on 18 spokfile shapes (a task with a non-ASCII name, a variable whose value differs on every invocation interpolated into the commands, two files with the same base name, a dependency rewritten by the task itself, a task named default run without task names through the binary, a dependency that may be a symbolic link, task names differing only in case, literal, glob, recursive glob, both, no-file task, shared file, task dependency, same glob with different literals, a file named twice, a generated input copied by a dependency, chain of three), each (state, run-op) executed once by the real code in-process (to a fixpoint unless the cap is reported), plus seeded random histories in a larger universe (3 values, the empty content and an LF/CRLF pair; every second history is applied in place so that modification times have a real history; 7 files incl. hidden and nested, random task shapes, in a third of the histories the spokfile itself is edited so that a task declares one dependency more or less), every 20th also through the race-built binary; plus every operation sequence of up to 6 (thorough 7) steps over {run A B, run A, write/delete three files} executed in place on one glob shape. evaluations = spok invocations judged; non-trivial = distinct (state, run-op) transitions in which a skip was observed, resp. random histories with a skip after an edit and a re-run",
+	"C01": "states = (content of every project file, bytes of .spok/cache.json or its absence, model of each task's last success); breadth-first search from the empty project over {write 'v1' / (thorough: 'v2') / the empty content to each file, delete it, rm -rf .spok, rm .spok/cache.json, chmod +x, run every non-empty task subset plain/forced, also with the first command of each closure task failing} on 18 spokfile shapes (a task with a non-ASCII name, a variable whose value differs on every invocation interpolated into the commands, two files with the same base name, a dependency rewritten by the task itself, a task named default run without task names through the binary, a dependency that may be a symbolic link, task names differing only in case, literal, glob, recursive glob, both, no-file task, shared file, task dependency, same glob with different literals, a file named twice, a generated input copied by a dependency, chain of three), each (state, run-op) executed once by the real code in-process (to a fixpoint unless the cap is reported), plus seeded random histories in a larger universe (3 values, the empty content and an LF/CRLF pair; every second history is applied in place so that modification times have a real history; 7 files incl. hidden and nested, random task shapes, in a third of the histories the spokfile itself is edited so that a task declares one dependency more or less), every 20th also through the race-built binary; plus every operation sequence of up to 6 (thorough 7) steps over {run A B, run A, write/delete three files} executed in place on one glob shape. evaluations = spok invocations judged; non-trivial = distinct (state, run-op) transitions in which a skip was observed, resp. random histories with a skip after an edit and a re-run; plus every spokfile-edit sequence of length <= 6 (thorough 7) on two shapes x three alternative versions (command text of a task differs / last task gone / one dependency more) over {switch, switch back, write a.txt=v2/v1, run first task, run all}; 21 shapes now (tasks named last/version, a declared output that another task names through a glob); random shapes declare outputs and use reserved-looking task names",
 	"C02": "same search and histories as C01, judged in the converse direction (crash-free only); non-trivial = distinct transitions/histories in which the model demanded a skip inside a multi-task invocation",
 	"C14": "same search and histories as C01 (any run may carry --force); non-trivial = distinct forced transitions that hit an up-to-date task, resp. random histories with such a forced run followed by an unforced run",
 }
 
 func histRun(c *core.Ctx) bool {
 	var wg sync.WaitGroup
-	var bfs, rnd, inp *core.ShardResult
-	var d1, d2, d3 []core.Death
-	wg.Add(3)
+	var bfs, rnd, inp, alts *core.ShardResult
+	var d1, d2, d3, d4 []core.Death
+	wg.Add(4)
 	go func() {
 		defer wg.Done()
 		inp, d3 = c.RunWorkers(core.WorkerSpec{Sub: "inplace", Binary: c.VcheckFast(), NShards: 6, Parallel: 6})
+	}()
+	go func() {
+		defer wg.Done()
+		alts, d4 = c.RunWorkers(core.WorkerSpec{Sub: "alts", Binary: c.VcheckFast(), NShards: 8, Parallel: 8})
 	}()
 	go func() {
 		defer wg.Done()
@@ -619,7 +762,8 @@ func histRun(c *core.Ctx) bool {
 	total.Merge(bfs)
 	total.Merge(rnd)
 	total.Merge(inp)
-	deaths := append(append(d1, d2...), d3...)
+	total.Merge(alts)
+	deaths := append(append(append(d1, d2...), d3...), d4...)
 	// one report per (clause, shortest witness): sort by witness length
 	sort.SliceStable(total.Violations, func(i, j int) bool { return len(total.Violations[i].Key) < len(total.Violations[j].Key) })
 	perClause := map[string]int{}
